@@ -7,6 +7,7 @@ V = Path(__file__).resolve().parent.parent
 
 # finding id -> (property, commit, what failed)
 FIXED = {
+    ("C04", "timed-led-arguments-evaluated-per-iteration"): ("575ab9b", "the delay argument of Led.blink / fade_in / fade_out / flash_pattern was re-evaluated in every iteration of the emitted loop (a sensor read in the argument position was taken again and again), not at all for an empty pattern, and RGBLed.blink / fade evaluated times / duration before the colours; found by the `rti` rendering written after seeded change C04-12"),
     ("C11", "parser-stack-memoryerror-escapes"): ("68e133e", "an expression nested tens of thousands of levels deep (`x = ----...1`) escaped from parse() as MemoryError (\"Parser stack overflowed\"), an internal error class; reported by a seeding sub-agent, reproduced by the deep-nesting scripts"),
     ("C11", "folded-growth-not-prompt"): ("80dcd43", "a folded variable squared line after line (`a = a * a`) or a folded string doubled line after line made translation take minutes / gigabytes (not prompt); reported by a seeding sub-agent, reproduced by the growth scripts"),
     ("C02", "forward-helper-call-typed-int"): ("0a685e4", "a helper calling a helper defined further down took the callee's result for an int (`return scaled(v * 0.5)` truncated 7.5 to 7) and passed float arguments uncast (ambiguous call, no compile, when the callee had an int and a float variant); found by the program written after seeded change C01-9"),
